@@ -59,6 +59,8 @@ TREES = {
     "ignore_bad": [{"p": "r/.gitignore", "k": "file", "c": ["lit", "*.log\ncache[0-9\nout/\n"]},
                    F("r/a.log"), F("r/keep"), F("r/cache1"), F("r/out/x"), F("r/sub/b.log"), F("r/sub/out/deep/y"), F("r/sub/z"),
                    {"p": "r/sub2/.fdignore", "k": "file", "c": ["lit", "tmp[\n*.tmp\n"]}, F("r/sub2/a.tmp"), F("r/sub2/ok")],
+    # paths whose components concatenate to the same bytes (a/b/x and ab/x; a/bc and ab/c)
+    "collide": [F("r/a/b/x"), F("r/ab/x"), F("r/a/bc"), F("r/ab/c"), F("r/abc"), F("r/a/b/c/y"), F("r/ab/c2/y"), F("r/a/bc2/y")],
     "links": [F("r/a/f1"), F("r/a/b/f2"), F("outside/o1"), F("outside/od/o2"),
               S("r/lrel", "a/f1"), S("r/labs", "@TREE@/r/a/b/f2"), S("r/dangling", "nowhere"),
               S("r/drel", "a/b"), S("r/dabs", "@TREE@/r/a"), S("r/loop", "."), S("r/a/up", ".."),
@@ -73,7 +75,7 @@ TREES = {
     # two sibling directories whose names differ only by case; cwd-relative patterns are tried from inside one of them
     "casecwd": [F("r/src/x"), F("r/src/d/x.txt"), F("R/src/x"), F("R/src/d/x.txt"), F("R/other/x")],
 }
-QUICK_TREES = ["nest", "ignore", "ignore_bad", "links", "names", "links2"]
+QUICK_TREES = ["nest", "ignore", "ignore_bad", "links", "names", "links2", "collide"]
 
 NAME_PATTERNS = ["x", "*.txt", "f?", "[fx]*", "{x,y}.txt", "X", "*.LOG", "\\x"]
 PATH_PATTERNS = ["r/**/x", "r/d1/*", "r/**/*.txt", "r/v.2/**", "r/ż/b*/x", "r/a.1*/x", "r/d-1/**", "r/v-2/**/x",
